@@ -135,3 +135,48 @@ class TestCommandStack(object):
 
         self.stack.undo()
         assert s.subset_state is old_state
+
+    def test_apply_subset_state_new_group_undo_redo(self):
+        # a selection applied while no subset is being edited creates a subset
+        # group: undo has to remove it again, and redo has to re-create it
+        x = core.Data(x=[1, 2, 3], label='x')
+        dc = self.session.data_collection
+        dc.append(x)
+        mode = self.session.edit_subset_mode
+
+        cmd = c.ApplySubsetState(data_collection=dc, subset_state=x.id['x'] > 1)
+        self.stack.do(cmd)
+        assert len(dc.subset_groups) == 1
+        assert mode.edit_subset == [dc.subset_groups[0]]
+        assert dc.subset_groups[0].label == 'Subset 1'
+        np.testing.assert_array_equal(x.subsets[0].to_mask(), [0, 1, 1])
+
+        self.stack.undo()
+        assert len(dc.subset_groups) == 0
+        assert len(x.subsets) == 0
+        assert mode.edit_subset == []
+
+        self.stack.redo()
+        assert len(dc.subset_groups) == 1
+        assert mode.edit_subset == [dc.subset_groups[0]]
+        assert dc.subset_groups[0].label == 'Subset 1'
+        np.testing.assert_array_equal(x.subsets[0].to_mask(), [0, 1, 1])
+
+    def test_apply_subset_state_undo_after_data_readded(self):
+        # undoing a selection must neither delete the subsets of a dataset that
+        # was removed and added back in the meantime, nor depend on the
+        # collection holding any dataset when the selection was made
+        x = core.Data(x=[1, 2, 3], label='x')
+        dc = self.session.data_collection
+        dc.append(x)
+
+        self.stack.do(c.ApplySubsetState(data_collection=dc, subset_state=x.id['x'] > 1))
+        self.stack.do(c.ApplySubsetState(data_collection=dc, subset_state=x.id['x'] > 2))
+        self.stack.do(c.RemoveData(data=x))
+        self.stack.do(c.ApplySubsetState(data_collection=dc, subset_state=x.id['x'] < 2))
+        self.stack.undo()
+        self.stack.undo()
+        np.testing.assert_array_equal(x.subsets[0].to_mask(), [0, 0, 1])
+        self.stack.undo()
+        assert len(x.subsets) == 1
+        np.testing.assert_array_equal(x.subsets[0].to_mask(), [0, 1, 1])
